@@ -1,4 +1,5 @@
 use std::borrow::Cow;
+use std::cmp;
 use std::collections::HashSet;
 use std::sync::Arc;
 
@@ -90,14 +91,23 @@ where
         let mut valid_entries = Vec::with_capacity(msg.docs.len());
 
         // Only select docs to be inserted if they're able to be applied.
-        let docs = msg
+        let mut docs = msg
             .docs
             .into_iter()
             .filter(|doc| self.state.will_apply(doc.id(), doc.last_updated()))
-            .map(|doc| {
-                valid_entries.push((doc.id(), doc.last_updated()));
-                doc
-            });
+            .collect::<Vec<_>>();
+
+        // A request can carry several versions of the same document (i.e. two writes which
+        // ended up in the same batch, in any order). Only the newest version must be persisted,
+        // otherwise the store and the set can end up with different versions.
+        docs.sort_by_key(|doc| cmp::Reverse(doc.last_updated()));
+        let mut seen_ids = HashSet::with_capacity(docs.len());
+        docs.retain(|doc| seen_ids.insert(doc.id()));
+
+        let docs = docs.into_iter().rev().map(|doc| {
+            valid_entries.push((doc.id(), doc.last_updated()));
+            doc
+        });
 
         let res = self
             .storage
@@ -158,14 +168,21 @@ where
         let mut valid_entries = Vec::with_capacity(msg.docs.len());
 
         // Only select docs to be inserted if they're able to be applied.
-        let docs = msg
+        let mut docs = msg
             .docs
             .into_iter()
             .filter(|doc| self.state.will_apply(doc.id, doc.last_updated))
-            .map(|doc| {
-                valid_entries.push((doc.id, doc.last_updated));
-                doc
-            });
+            .collect::<Vec<_>>();
+
+        // Only the newest delete of each document must be persisted, see `on_multi_set`.
+        docs.sort_by_key(|doc| cmp::Reverse(doc.last_updated));
+        let mut seen_ids = HashSet::with_capacity(docs.len());
+        docs.retain(|doc| seen_ids.insert(doc.id));
+
+        let docs = docs.into_iter().rev().map(|doc| {
+            valid_entries.push((doc.id, doc.last_updated));
+            doc
+        });
 
         let res = self.storage.mark_many_as_tombstone(&self.name, docs).await;
 
